@@ -46,6 +46,14 @@ class NameSpace(Space):
                     if item not in self.items:
                         self.items.append(item)
 
+        # (wave 11) a sibling whose name differs from the destination's only in letter case is still outside
+        for sib in (DST.upper(), DST.capitalize()):
+            for pre in ((), ("a", ".."), (".",)):
+                for tail in (("a",), ("a", "a"), ("",)):
+                    comps = pre + ("..", sib) + tail
+                    for sep in "/\\":
+                        self.items.append((comps, (sep,) * (len(comps) - 1), False))
+
     def __len__(self):
         return len(self.items)
 
